@@ -245,8 +245,19 @@ def div_by_zero_somewhere(a: Any, vals: list[Any]) -> bool:
 # ------------------------------------------------------------------ building the real engines
 
 
-def build_api(a: Any, engines: list[Any]) -> Any:
+def build_api(a: Any, engines: list[Any], nest: bool = False, depth: int = 0, counter: list[int] | None = None) -> Any:
+    """With `nest`, sub-expressions at odd depths are built into engines of their own (`.build(name)` with default
+    arguments) before they are used as operands of the enclosing expression."""
     from frequenz.quantities import Quantity
+
+    counter = counter if counter is not None else [0]
+
+    def sub(x: Any) -> Any:
+        r = build_api(x, engines, nest, depth + 1, counter)
+        if nest and (depth + 1) % 2 == 1 and x[0] in ("bin", "un") and hasattr(r, "build") and not hasattr(r, "new_receiver"):
+            counter[0] += 1
+            return r.build(f"sub{counter[0]}")
+        return r
 
     k = a[0]
     if k == "leaf":
@@ -254,10 +265,10 @@ def build_api(a: Any, engines: list[Any]) -> Any:
     if k == "const":
         return a
     if k == "un":
-        return getattr(build_api(a[2], engines), a[1])()
+        return getattr(sub(a[2]), a[1])()
     op = a[1]
-    left = build_api(a[2], engines)
-    right = build_api(a[3], engines)
+    left = sub(a[2])
+    right = sub(a[3])
     if isinstance(right, list):
         right = Quantity(right[1]) if op in ("+", "-", "min", "max") else right[1]
     if op == "+":
@@ -338,6 +349,35 @@ async def run_program(prog: dict[str, Any], out: dict[str, Any], pace_timeout: f
         for i in range(n):
             name = ComponentMetricRequest("ns", i + 1, ComponentMetricId.ACTIVE_POWER, None).get_channel_name()
             senders.append(reg.get_or_create(Sample[Quantity], name).new_sender())
+    elif mode == "pool":
+        # through FormulaEnginePool.from_string (what LogicalMeter.start_formula uses): the same formula string is
+        # first started for another metric (fed with other numbers), then for the metric under test
+        from frequenz.sdk.timeseries.formula_engine._formula_engine_pool import FormulaEnginePool
+
+        reg = ChannelRegistry(name="reg")
+        sub = Broadcast(name="sub")
+        _keep = sub.new_receiver(limit=1000)
+        pool = FormulaEnginePool("ns", reg, sub.new_sender())
+        decoy = pool.from_string(prog["src"], ComponentMetricId.REACTIVE_POWER, nones_are_zeros=naz)
+        eng = pool.from_string(prog["src"], ComponentMetricId.ACTIVE_POWER, nones_are_zeros=naz)
+        out["pool_same_engine_again"] = pool.from_string(prog["src"], ComponentMetricId.ACTIVE_POWER, nones_are_zeros=naz) is eng
+        decoy_rx = decoy.new_receiver(max_size=200)
+        decoy_senders = []
+        for i in range(n):
+            name = ComponentMetricRequest("ns", i + 1, ComponentMetricId.ACTIVE_POWER, None).get_channel_name()
+            senders.append(reg.get_or_create(Sample[Quantity], name).new_sender())
+            dname = ComponentMetricRequest("ns", i + 1, ComponentMetricId.REACTIVE_POWER, None).get_channel_name()
+            decoy_senders.append(reg.get_or_create(Sample[Quantity], dname).new_sender())
+
+        async def feed_decoy() -> None:
+            for k, vec in enumerate(prog["vectors"]):
+                for i in range(n):
+                    await decoy_senders[i].send(Sample(T0 + timedelta(seconds=k), Quantity(float(vec[i]) + 1000.0 + i)))
+                await asyncio.sleep(0.004)
+                while decoy_rx._q:  # noqa: SLF001
+                    decoy_rx.consume()
+
+        out["_decoy_task"] = asyncio.create_task(feed_decoy())
     elif mode == "api3":
         # 3-phase engines composed through the operator API (HigherOrderFormulaBuilder3Phase): leaf i, phase p
         from frequenz.sdk.timeseries.formula_engine._formula_engine import FormulaEngine3Phase
@@ -392,7 +432,9 @@ async def run_program(prog: dict[str, Any], out: dict[str, Any], pace_timeout: f
             names = prog.get("leaf_names") or [f"e{i}" for i in range(n)]
             engines = [FormulaEngine.from_receiver(names[i], chans[i].new_receiver(limit=200), Quantity,
                                                    nones_are_zeros=leaf_naz[i]) for i in range(n)]
-            eng = build_api(prog["ast"], engines).build("f", nones_are_zeros=naz)
+            top = build_api(prog["ast"], engines, nest=bool(prog.get("nest")))
+            # (the default of `nones_are_zeros` is exercised as well: it must mean False)
+            eng = top.build("f") if (prog.get("nest") and not naz) else top.build("f", nones_are_zeros=naz)
     out["formula_str"] = str(eng)
     rx = eng.new_receiver(max_size=200)
     await asyncio.sleep(0)
@@ -418,6 +460,8 @@ async def run_program(prog: dict[str, Any], out: dict[str, Any], pace_timeout: f
         while rx._q:  # noqa: SLF001  (extra outputs for one input round would be a violation)
             got.append(rx.consume())
         rounds.append([(o.timestamp, None if o.value is None else o.value.base_value) for o in got])
+    if out.get("_decoy_task") is not None:
+        out.pop("_decoy_task").cancel()
     try:
         await eng._stop()  # noqa: SLF001
     except Exception:  # pylint: disable=broad-except
